@@ -238,8 +238,11 @@ func init() {
 				c.T = []int{0, 0x7af, 16, 64 | 16, 1024, 4095, g.R.Intn(4096)}[g.R.Intn(7)]
 			}
 			init := []Dec{vs[g.R.Intn(len(vs))], vs[g.R.Intn(len(vs))], g.R.randL(c.P, 6)}
-			if g.R.Intn(5) == 0 {
-				init[g.R.Intn(3)] = finDec(g.R.bool(), huge, g.R.between(-60, -40))
+			if g.R.Intn(4) == 0 { // a heap-backed coefficient (beyond 128 bits), with or without a fractional part
+				init[g.R.Intn(3)] = finDec(g.R.bool(), new(bigIntT).Add(huge, bigInt(int64(g.R.Intn(1000)))), []int{g.R.between(-70, -40), g.R.between(-5, 5), 3}[g.R.Intn(3)])
+			}
+			if g.R.Intn(6) == 0 {
+				init[g.R.Intn(3)].Hp = true
 			}
 			ops := machineOps
 			if mode == "ed" {
